@@ -579,11 +579,52 @@ func RuleG1(r *Report, p *Program) {
 			if !ok {
 				continue
 			}
-			if strings.HasPrefix(v.Type().String(), "sync.") {
-				r.OK("G1", relPkg(pk.PkgPath)+"."+name, p.Pos(v.Pos()), "shared synchronisation object of type "+v.Type().String(), false)
+			ts := v.Type().String()
+			if strings.HasPrefix(ts, "sync.") || strings.HasPrefix(ts, "sync/atomic.") || strings.HasPrefix(ts, "*sync.") {
+				isMutex := ts == "sync.Mutex" || ts == "sync.RWMutex"
+				r.Check(isMutex && relPkg(pk.PkgPath) == "uhppote", "G1", relPkg(pk.PkgPath)+"."+name, p.Pos(v.Pos()), "the process-wide fixed-port mutex",
+					"package-level shared object of type "+ts+": state shared between calls and clients (only the fixed-port mutex is expected)")
+			}
+			switch v.Type().Underlying().(type) {
+			case *types.Map, *types.Slice, *types.Chan:
+				if !isInitOnly(p, pk.PkgPath, name) {
+					r.Bad("G1", relPkg(pk.PkgPath)+"."+name, p.Pos(v.Pos()), "package-level "+ts+" that is modified at run time")
+				}
 			}
 		}
 	}
+}
+
+// isInitOnly: a package-level map/slice is only indexed for reading outside init (no MapUpdate / element store).
+func isInitOnly(p *Program, pkgPath, name string) bool {
+	sp := p.SSAPkgs[pkgPath]
+	if sp == nil {
+		return true
+	}
+	for _, fn := range p.AllFuncs {
+		if fn.Name() == "init" {
+			continue
+		}
+		for _, b := range fn.Blocks {
+			for _, in := range b.Instrs {
+				var target ssa.Value
+				switch x := in.(type) {
+				case *ssa.MapUpdate:
+					target = x.Map
+				case *ssa.Store:
+					if ia, ok := x.Addr.(*ssa.IndexAddr); ok {
+						target = ia.X
+					}
+				}
+				if ld, ok := target.(*ssa.UnOp); ok {
+					if g, ok := ld.X.(*ssa.Global); ok && g.Name() == name && g.Pkg == sp {
+						return false
+					}
+				}
+			}
+		}
+	}
+	return true
 }
 
 // K9 zero "no value" symmetry
